@@ -45,7 +45,7 @@ import (
 func TestC10(t *testing.T) {
 	r := report.Start("C10")
 	defer r.Finish()
-	ns := r.Pick(24, 600)
+	ns := r.Cases(24, 600)
 	for i := 0; i < ns; i++ {
 		id := fmt.Sprintf("seq/%d", i)
 		if !r.Want(id, i) {
